@@ -29,6 +29,23 @@ func (f *Frame) call(instr ssa.Instruction, c *ssa.CallCommon, result ssa.Value)
 	var res Val
 	term := false
 	f.siteCall(instr, c)
+	// ghost "was called" flags count the direct calls of the function under verification only:
+	// whatever the callee does (even a havoc of everything) leaves them as they are
+	var ghosts map[string]string
+	if f.top && vc.contract != nil && vc.pure == 0 {
+		for _, t := range vc.contract.trackedCalls() {
+			if ghosts == nil {
+				ghosts = map[string]string{}
+			}
+			ghosts[calledLoc(t)] = vc.he.get(f.cur, calledLoc(t), "Bool")
+		}
+		defer func() {
+			for l, v := range ghosts {
+				vc.he.set(f.cur, l, "Bool", v)
+			}
+			f.noteCalled(c)
+		}()
+	}
 	if c.IsInvoke() {
 		res, term = f.invoke(c, instr.Pos())
 	} else {
